@@ -4,40 +4,86 @@ import (
 	"go.opentelemetry.io/collector/pdata/pcommon"
 	"go.opentelemetry.io/collector/pdata/ptrace"
 
+	"github.com/apache/arrow-go/v18/arrow/array"
+	"github.com/apache/arrow-go/v18/arrow/ipc"
+
 	rt "github.com/open-telemetry/otel-arrow/zzverifrt"
 )
 
-// VerifHarness_C08_id_space: a batch with N spans that all carry related data, in two runs of N/2 spans; for
-// each run the KIND of related data (an attribute, an event, a link) is a symbolic choice, so no single
-// accumulator need exceed its own 16-bit group limit while the spans' own 16-bit id space is exhausted. C08: the
-// producer returns a batch or an error - it never panics - and with more than 65,536 id-bearing spans it must
-// be an error (the ids cannot be represented).
+func verifName4(i int) string {
+	return string([]byte{'a' + byte(i%26), 'a' + byte(i/26%26), 'a' + byte(i/676%26), 'a' + byte(i/17576%26)})
+}
+
+// VerifHarness_C08_id_space: a batch of N spans that exhausts one of the protocol's 16-bit id spaces, the LAYOUT
+// being a symbolic choice:
+//   layout 0: all spans in one scope, every span carrying related data, in two runs of N/2 spans; for each run the
+//             KIND of related data (an attribute, an event, a link) is a symbolic choice, so no single accumulator
+//             need exceed its own 16-bit group limit while the spans' shared 16-bit id is exhausted;
+//   layout 1: 65,537 or N distinct scopes (one span each) under one resource;
+//   layout 2: 65,537 or N distinct resources (one span each).
+// C08: the producer returns a batch or an error - it never panics - and with N > 65,536 it must be an error (the
+// ids cannot be represented). C15: a producer that is closed after only failed encodes has released everything.
 func VerifHarness_C08_id_space() {
 	n := rt.Param("N")
+	liveBefore, writersBefore := array.VerifLive, ipc.VerifOpenWriters
 	td := ptrace.NewTraces()
-	ss := td.ResourceSpans().AppendEmpty().ScopeSpans().AppendEmpty().Spans()
-	ss.EnsureCapacity(n)
-	for half := 0; half < 2; half++ {
-		kind := rt.Int("kind")
-		rt.Assume(kind >= 0)
-		rt.Assume(kind <= 2)
-		k := 0 // concretise once per run (one fork), not once per span
-		if kind == 1 {
-			k = 1
-		} else if kind == 2 {
-			k = 2
+	layout := rt.Int("layout")
+	rt.Assume(layout >= 0)
+	rt.Assume(layout <= 2)
+	lay := 0 // concretise once (one fork), not once per span
+	if layout == 1 {
+		lay = 1
+	} else if layout == 2 {
+		lay = 2
+	}
+	if lay != 0 {
+		// one item too many, or two (the first id that does not fit may be the last item or not)
+		if rt.Bool("exactlyOneTooMany") {
+			n = 65537
 		}
-		for i := 0; i < n/2; i++ {
-			s := ss.AppendEmpty()
-			s.SetStartTimestamp(pcommon.Timestamp(half*n + i + 1))
-			switch k {
-			case 0:
-				s.Attributes().PutInt("k", 1)
-			case 1:
-				s.Events().AppendEmpty().SetName("e")
-			default:
-				s.Links().AppendEmpty().TraceState().FromRaw("l")
+	}
+	switch lay {
+	case 0:
+		ss := td.ResourceSpans().AppendEmpty().ScopeSpans().AppendEmpty().Spans()
+		ss.EnsureCapacity(n)
+		for half := 0; half < 2; half++ {
+			kind := rt.Int("kind")
+			rt.Assume(kind >= 0)
+			rt.Assume(kind <= 2)
+			k := 0
+			if kind == 1 {
+				k = 1
+			} else if kind == 2 {
+				k = 2
 			}
+			for i := 0; i < n/2; i++ {
+				s := ss.AppendEmpty()
+				s.SetStartTimestamp(pcommon.Timestamp(half*n + i + 1))
+				switch k {
+				case 0:
+					s.Attributes().PutInt("k", 1)
+				case 1:
+					s.Events().AppendEmpty().SetName("e")
+				default:
+					s.Links().AppendEmpty().TraceState().FromRaw("l")
+				}
+			}
+		}
+	case 1:
+		sss := td.ResourceSpans().AppendEmpty().ScopeSpans()
+		sss.EnsureCapacity(n)
+		for i := 0; i < n; i++ {
+			sc := sss.AppendEmpty()
+			sc.Scope().SetName(verifName4(i))
+			sc.Spans().AppendEmpty().SetStartTimestamp(pcommon.Timestamp(i + 1))
+		}
+	default:
+		rss := td.ResourceSpans()
+		rss.EnsureCapacity(n)
+		for i := 0; i < n; i++ {
+			rs := rss.AppendEmpty()
+			rs.SetSchemaUrl(verifName4(i))
+			rs.ScopeSpans().AppendEmpty().Spans().AppendEmpty().SetStartTimestamp(pcommon.Timestamp(i + 1))
 		}
 	}
 	p := NewProducer()
@@ -49,5 +95,9 @@ func VerifHarness_C08_id_space() {
 	if err == nil {
 		rt.Assert(bar != nil && len(bar.ArrowPayloads) > 0, "C08.id_space.batch_or_error")
 	}
-	_ = p.Close()
+	rt.Assert(p.Close() == nil, "C15.release_failed.close_ok")
+	if err != nil {
+		rt.Assert(array.VerifLive == liveBefore, "C15.release_failed.all_records_arrays_builders_released")
+		rt.Assert(ipc.VerifOpenWriters == writersBefore, "C15.release_failed.all_ipc_writers_closed")
+	}
 }
